@@ -774,6 +774,9 @@ def gen_direct_tasks(tier, seed):
     ndkw = 20000 if tier == "quick" else 200000
     for i, law in enumerate(DKW_LAWS + (DKW_MORE if tier != "quick" else [])):
         tasks.append(dict(kind="dkw", law=law, n=ndkw, seed=seed * 1000 + 700 + i, tie_at=DKW_TIE[law[0]]))
+    # the inverse-cdf samplers rest on table-driven approximations (erfinv/ndtri): a tighter band for them, in every tier
+    for j, law in enumerate([("Gaussian", F_(0), F_(1)), ("Gaussian", F_(1), F_(2)), ("Exponential", F_(3, 2))]):
+        tasks.append(dict(kind="dkw", law=law, n=max(ndkw, 150000), seed=seed * 1000 + 780 + j, tie_at=DKW_TIE[law[0]]))
     # a many-trials Binomial with mean 1: the distribution (not only the support) must be the one P() reports
     tasks.append(dict(kind="dkw", law=("Binomial", 1200, F_(1, 1200)), n=ndkw // 4, seed=seed * 1000 + 799, tie_at=[1]))
     return tasks
